@@ -19,7 +19,7 @@ use wgen::{Project, TomlOpts};
 
 const DUT: &str = include_str!("testprj/dut.veryl");
 const TESTS: &str = include_str!("testprj/tests.veryl");
-pub const TEST_NAMES: [&str; 11] = ["t_a", "t_b", "t_c", "t_d", "t_e", "t_f", "t_g", "t_h", "t_i", "t_j", "t_k"];
+pub const TEST_NAMES: [&str; 13] = ["t_a", "t_b", "t_c", "t_d", "t_e", "t_f", "t_g", "t_h", "t_i", "t_j", "t_k", "t_l", "t_m"];
 
 #[derive(Clone, Debug, Serialize, Deserialize)]
 pub struct TestScenario {
@@ -62,8 +62,8 @@ pub fn project(layout: u8) -> Project {
         1 => {
             files.insert("src/dut.veryl".to_string(), DUT.to_string());
             files.insert("src/a_tests.veryl".to_string(), format!("{}{}{}{}", blocks[3], blocks[0], blocks[7], blocks[9]));
-            files.insert("src/m_tests.veryl".to_string(), format!("{}{}{}", blocks[5], blocks[10], blocks[1]));
-            files.insert("src/z_tests.veryl".to_string(), format!("{}{}{}{}", blocks[2], blocks[6], blocks[4], blocks[8]));
+            files.insert("src/m_tests.veryl".to_string(), format!("{}{}{}{}", blocks[5], blocks[10], blocks[1], blocks[12]));
+            files.insert("src/z_tests.veryl".to_string(), format!("{}{}{}{}{}", blocks[2], blocks[6], blocks[4], blocks[8], blocks[11]));
         }
         2 => {
             files.insert("src/zz_dut.veryl".to_string(), DUT.to_string());
@@ -269,7 +269,7 @@ pub fn gen_scenario(seed: u64, mode: &str, idx: usize) -> TestScenario {
     let mut order: Vec<String> = TEST_NAMES.iter().map(|s| s.to_string()).collect();
     rng.shuffle(&mut order);
     // leave some tests without history (they sort first, by name)
-    let keep = if rng.chance(1, 3) { 3 + rng.below(8) } else { order.len() };
+    let keep = if rng.chance(1, 3) { 3 + rng.below(10) } else { order.len() };
     order.truncate(keep);
     let workers = if mode == "C34" && idx % 2 == 0 { 1 } else { 1 + rng.below(8) as u64 };
     TestScenario {
@@ -356,7 +356,7 @@ pub fn check(mode: &str, tier: &str) -> i32 {
     extra.insert("runs_per_hour".into(), json!((n as f64 / wall * 3600.0) as u64));
     extra.insert("components".into(), json!({"real": ["veryl test CLI process: worker pool, longest-first dispatch from .build/test_timings, per-thread ProtoModuleCache, process-global DUT reuse caches, $tb::random/$display/$assert, JSON report"], "simulated": ["worker count (choice hook)", "dispatch order (timings file written by the scheduler)", "test-to-worker assignment (workers parked at the queue gate, one released at a time)", "RandomState keys"], "not_interleaved": ["two workers inside conversion at the same time (Condvar paths of the single-flight caches): workers are serialised at test granularity"]}));
     let (rule, assumptions) = if mode == "C32" {
-        ("one fixed 11-test project (3 file layouts; several tests share the `r` random handle name and the DUT at different parameters; one fails on purpose) x seeded schedules: worker count 1-8, dispatch order induced via test_timings (some tests without history), worker released per dispatch slot, backends cranelift and cc; per-test status/message/output and totals compared with the single-worker history-free run of the same seed, plus a re-run on the recorded timings. distinct_nontrivial = distinct (order, assignment, layout, seed) tuples that differ from the default schedule".to_string(),
+        ("one fixed 13-test project (two of them stamped from one template and differing only in what their initial block reads) (3 file layouts; several tests share the `r` random handle name and the DUT at different parameters; one fails on purpose) x seeded schedules: worker count 1-8, dispatch order induced via test_timings (some tests without history), worker released per dispatch slot, backends cranelift and cc; per-test status/message/output and totals compared with the single-worker history-free run of the same seed, plus a re-run on the recorded timings. distinct_nontrivial = distinct (order, assignment, layout, seed) tuples that differ from the default schedule".to_string(),
          vec!["the range-bounds clause of $tb::random is a pure-input clause: only sampled by the project's own $assert".to_string()])
     } else {
         ("same project and schedules (half of them single-worker so that the first converter of a shared DUT varies exhaustively over the sampled orders); every test's status/message/output is compared with running that test alone with VERYL_DUT_REUSE=0 (converted from scratch). distinct_nontrivial as for C32".to_string(), vec![])
